@@ -6,6 +6,8 @@
 import Gzx.Proofs.QRTolerance
 import Gzx.Proofs.QRInterleave
 import Gzx.Proofs.QRMatrixRead
+import Gzx.Proofs.QRCompTop
+import Gzx.Properties.C01
 namespace Gzx.Properties.C05
 open Gzx Gzx.QRDec
 
@@ -187,6 +189,92 @@ theorem qr_tolerates_block_errors_partial (rs : List Nat → Nat → Res (List N
   have : (p.2.1 ++ p.2.2).length - p.2.1.length = e := by simp [b]
   rw [this]
   exact hrs p hp
+
+/-! ### `qr_tolerates_block_errors`, in full (no Reed-Solomon or placement hypothesis)
+
+The written symbol is the reference symbol of C07 for a payload `bits` (any single- or multi-segment payload
+that fits): data codewords `QRRef.terminate …`, blocks `QRComp.refBlocks` (Table 9 split + RS parity), final
+sequence = `QRDec.interleave` of the blocks (`QRComp.finalCodewords_eq_interleave`).  A damaged symbol is the
+reference symbol whose codeword modules carry the interleaving of RECEIVED blocks: same block shapes, byte
+values, and in every block at most `⌊ecPerBlock/2⌋` codewords (data or error-correction) differ from what was
+written (`QRComp.Received`; positions of the interleaved stream and of the blocks correspond through the
+standard's interleaving 7.6, which is a bijection for a fixed block structure).  The RS decoder is C04's model
+`Gzx.RS.decode` over `qrCode256` (`QRComp.rsQR`); its correction capability is C04's `rs_corrects`. -/
+
+/-- **Clause "up to floor(ec/2) corrupted codewords of every Reed-Solomon block still decode to exactly the
+    original"** — for every version 1..40, level, mask 0..7, every payload that fits and every such received
+    block list: `Decoder.Decode` succeeds on the first attempt and returns exactly what the undamaged symbol
+    returns (`Properties.C01.qr_roundtrip_bits`): the parsed content, level, version and the ORIGINAL data
+    codewords.  Tables: any tables conforming to the standard (`Obligations.C01.tables_conform` for the
+    regenerated ones). -/
+theorem qr_tolerates_block_errors (T : Tables) (hT : QRComp.TablesConform T) (hint : ECI.Hint)
+    (v : Nat) (h1 : 1 ≤ v) (h40 : v ≤ 40) (ec : QRRef.EC) (mask : Nat) (hm : mask < 8) (bits : List Bool)
+    (hfit : bits.length ≤ 8 * QRRef.dataCodewords v ec) (parsed : Parsed)
+    (hparse : ∀ tail, Terminated tail → parseStream T.eci (bits ++ tail) v hint = .ok parsed)
+    (recv : List (List Nat × List Nat))
+    (hrecv : QRComp.Received v ec (QRRef.terminate (QRRef.dataCodewords v ec) bits) recv) :
+    decode T QRComp.rsQR hint (QRComp.matrixOf (QRRef.refMatrix v ec mask (QRDec.interleave recv))) =
+      .ok ⟨parsed, QRComp.toDecEC ec, v, QRRef.terminate (QRRef.dataCodewords v ec) bits, false⟩ :=
+  QRComp.decode_received T hT hint v h1 h40 ec mask hm bits hfit parsed hparse recv hrecv
+
+/-- the undamaged blocks are a (trivial) instance of `Received`: the hypothesis is satisfiable for every symbol,
+    and `qr_tolerates_block_errors` contains the clean round trip -/
+theorem received_refl (v : Nat) (ec : QRRef.EC) (data : List Nat) (hb : ∀ d ∈ data, d < 256) :
+    QRComp.Received v ec data (QRComp.refBlocks v ec data) := by
+  refine ⟨rfl, ?_, ?_⟩
+  · intro b hbm x hx
+    unfold QRComp.refBlocks at hbm
+    obtain ⟨blk, hblk, rfl⟩ := List.mem_map.mp hbm
+    rcases List.mem_append.mp hx with h | h
+    · exact hb x (QRRef.mem_splitBlocks _ _ blk hblk x h)
+    · exact QRRef.rsParity_lt blk _ (fun d hd => hb d (QRRef.mem_splitBlocks _ _ blk hblk d hd)) x h
+  · intro p hp
+    have hpp : p.1 = p.2 := by
+      obtain ⟨i, hi⟩ := List.getElem?_of_mem hp
+      rw [List.getElem?_zip_eq_some] at hi
+      exact Option.some.inj (hi.1.symm.trans hi.2)
+    rw [← hpp]
+    unfold Gzx.Properties.C04.hamming
+    rw [Gzx.Proofs.MinDist.weight_zipWith_self]
+    omega
+
+/-- non-vacuity: for the version 1-M symbol of ISO 18004 Annex I the undamaged block satisfies `Received`; a block
+    with five of its 26 codewords replaced (the full capacity ⌊10/2⌋) is `QRComp.Examples.recv8_received`, and
+    `QRComp.Examples.damaged_annexI_decodes` is the resulting instance of `qr_tolerates_block_errors`
+    (Proofs/QRCompExamples.lean) -/
+example : QRComp.Received 1 .M [0x10, 0x20, 0x0C, 0x56, 0x61, 0x80, 0xEC, 0x11, 0xEC, 0x11, 0xEC, 0x11, 0xEC, 0x11, 0xEC, 0x11]
+    (QRComp.refBlocks 1 .M [0x10, 0x20, 0x0C, 0x56, 0x61, 0x80, 0xEC, 0x11, 0xEC, 0x11, 0xEC, 0x11, 0xEC, 0x11, 0xEC, 0x11]) :=
+  received_refl 1 .M _ (by decide)
+
+/-- numeric contents, as an instance: the digits come back from every symbol damaged within the promise -/
+theorem qr_tolerates_block_errors_numeric (T : Tables) (hT : QRComp.TablesConform T) (hint : ECI.Hint)
+    (v : Nat) (h1 : 1 ≤ v) (h40 : v ≤ 40) (ec : QRRef.EC) (mask : Nat) (hm : mask < 8)
+    (ds : List Nat) (hd : ∀ d ∈ ds, d < 10)
+    (hfit : QRRef.fitsBits v ec .numeric (QRRef.headerBits none false .numeric).length
+      (QRRef.packNumeric ds).length = true)
+    (recv : List (List Nat × List Nat))
+    (hrecv : QRComp.Received v ec
+      (QRRef.dataCodewordsOf v ec (QRRef.headerBits none false .numeric) .numeric ds.length (QRRef.packNumeric ds))
+      recv) :
+    (decode T QRComp.rsQR hint (QRComp.matrixOf (QRRef.refMatrix v ec mask (QRDec.interleave recv)))).map (·.parsed) =
+      .ok ⟨[.raw (ds.map (48 + ·))], [], -1, -1, 1⟩ := by
+  have hk := (QRComp.countBits_eq v).1
+  have hf : _ ≤ _ := of_decide_eq_true hfit
+  have hcount : ds.length < 2 ^ QRRef.countBits .numeric v := by
+    have hc := (QRComp.cap_facts v h1 h40 ec).1
+    rw [QRComp.packNumeric_length] at hf
+    generalize 2 ^ QRRef.countBits .numeric v = P at hc ⊢
+    split at hf
+    · omega
+    · split at hf <;> omega
+  rw [qr_tolerates_block_errors T hT hint v h1 h40 ec mask hm
+    (QRRef.payloadBits v (QRRef.headerBits none false .numeric) .numeric ds.length (QRRef.packNumeric ds))
+    (by rw [Gzx.Properties.C01.payload_length]; exact hf)
+    ⟨[.raw (ds.map (48 + ·))], [], -1, -1, 1⟩ ?_ recv hrecv]
+  · rfl
+  · intro tail ht
+    rw [Gzx.Properties.C01.payload_segment v .numeric 0 hk, QRComp.packNumeric_eq]
+    exact Gzx.Properties.C01.parse_numeric_stream T.eci v hint ds hd (by rw [← hk]; exact hcount) tail ht
 
 /-- Data Matrix twin — statement only (the Data Matrix decoder model belongs to the work package of
     C02/C08): `dm_tolerates_block_errors : (∀ b, faults in block b ≤ ecPerBlock b / 2) →
